@@ -27,14 +27,14 @@ import (
 // ---------------------------------------------------------------------------
 
 type task struct {
-	name   string
-	resume chan struct{}
-	cond   func() bool // nil = runnable; otherwise runnable iff cond()
-	lockWait bool      // cond waits for a lock of instrumented code: honoured even after abort
-	gid      uint64    // goroutine id of the task
-	done   bool
-	pval   any
-	pstack string
+	name     string
+	resume   chan struct{}
+	cond     func() bool // nil = runnable; otherwise runnable iff cond()
+	lockWait bool        // cond waits for a lock of instrumented code: honoured even after abort
+	gid      uint64      // goroutine id of the task
+	done     bool
+	pval     any
+	pstack   string
 }
 
 type sched struct {
